@@ -138,8 +138,26 @@ Pick(rs, i, d, mode) ==
     [] OTHER              -> {PickWith(rs, i, d, c) : c \in Choices(d)}
 
 -----------------------------------------------------------------------------
+(* Results are a function of the path: a router with a result name saves,   *)
+(* when it picks a category, the result <name of the node> := that         *)
+(* category; categories and exits correspond one to one, so res[n] is the  *)
+(* exit of the LAST step on node n that was left through its router (0 =   *)
+(* never).  A step that ended in a wait that is still pending, an expired  *)
+(* wait and a router that found no category save nothing; a timeout saves  *)
+(* the timeout category.  enter_flow routers have no result name.          *)
+(* lastact: "act" nodes save the result `last` := their own name.          *)
+SavesResult(d) == d.kind \in {"split", "wait", "dialwait"} \/ (d.kind = "gone" /\ d.dflt)   \* a waiting node that was edited away had a router
+ResOf(r) ==
+  [n \in Nodes |->
+     LET K == {k \in DOMAIN r.path : r.path[k].node = n /\ r.path[k].exit # 0 /\ SavesResult(def[r.flow][n])}
+     IN IF K = {} THEN 0 ELSE r.path[CHOOSE k \in K : \A j \in K : j <= k].exit]
+LastActOf(r) ==
+  LET K == {k \in DOMAIN r.path : def[r.flow][r.path[k].node].kind = "act"}
+  IN IF K = {} THEN 0 ELSE r.path[CHOOSE k \in K : \A j \in K : j <= k].node
+
 Proj == [status |-> status, err |-> err,
-         runs   |-> [i \in DOMAIN runs |-> runs[i]],
+         runs   |-> [i \in DOMAIN runs |-> [flow |-> runs[i].flow, parent |-> runs[i].parent, status |-> runs[i].status, exited |-> runs[i].exited,
+                                            path |-> runs[i].path, res |-> ResOf(runs[i]), lastact |-> LastActOf(runs[i])]],
          events |-> events]
 
 \* history bookkeeping shared by all actions: when a call returns, remember what it left behind
@@ -346,7 +364,7 @@ AssetFault(fk) ==
        \* the flow of the run that is paused above the waiting one disappears (the waiting run's own flow stays)
        [] fk = "parent_gone" -> /\ runs[w].parent # 0 /\ runs[runs[w].parent].flow # f /\ runs[runs[w].parent].flow \notin gone
                                 /\ gone' = gone \cup {runs[runs[w].parent].flow} /\ UNCHANGED def
-       [] fk = "node_gone" -> def' = [def EXCEPT ![f][n] = Gone] /\ UNCHANGED gone
+       [] fk = "node_gone" -> def' = [def EXCEPT ![f][n] = [Gone EXCEPT !.dflt = TRUE]] /\ UNCHANGED gone   \* dflt marks: had a router with a result
        \* the enter_flow node on which the run paused above the waiting one stands is edited away
        [] fk = "pnode_gone" -> /\ runs[w].parent # 0 /\ runs[runs[w].parent].flow # f /\ runs[runs[w].parent].flow \notin gone
                                /\ DefOfLast(runs, runs[w].parent).kind # "gone"
@@ -415,6 +433,13 @@ WalkOK == Quiescent /\ nfaults = 0 => \A i \in DOMAIN runs : IsWalk(runs[i])
 \* an event that names a step names a step of the run that recorded it
 EventsOK == \A k \in DOMAIN events :
               LET e == events[k] IN e.srun # 0 => (e.srun = e.owner /\ e.sidx \in DOMAIN runs[e.owner].path)
+
+\* C07 / C20 -- saved results come from routers on the run's own path and name one of their two categories; a node whose
+\* router was never left saves nothing (what static inspection lists - every router node with a result name - covers it)
+ResultsOK == \A i \in DOMAIN runs : \A n \in Nodes :
+               LET e == ResOf(runs[i])[n] IN
+                 /\ e \in {0, 1, 2}
+                 /\ (e # 0 => \E k \in DOMAIN runs[i].path : runs[i].path[k].node = n /\ runs[i].path[k].exit = e)
 
 \* C05
 StepBound == nsteps <= MaxSteps + 1
